@@ -18,6 +18,8 @@ func init() {
 			"every exit of a walk function that signals an error (return r.err()) has recorded an error on all paths in the validation pass; every leaf walker tests null-ness before it tests the JSON kind and, on the null edge, either renders null under Nullable or records the non-null violation; the JSON tree is nulled only in the validation pass (two idempotent array sites frozen); " +
 			"the renderer's bookkeeping stacks (response path, runtime type names, enclosing type names) are balanced on every exit of every walk function. It does not decide JSON validity, key-set equality or projection equality (value level).",
 		Mutants: []Mutant{
+			{Name: "forwarded extension keys written raw (reverts the F45 fix)", File: "v2/pkg/engine/resolve/resolvable.go", Rule: "C02-R12", Key: "Resolvable.printExtensions/raw-string-content-printed",
+				Old: "\t\t\tr.printBytes(encodedKey)\n", New: "\t\t\t_ = encodedKey\n\t\t\tr.printBytes(quote)\n\t\t\tr.printBytes([]byte(key))\n\t\t\tr.printBytes(quote)\n"},
 			{Name: "non-JSON string content written between raw quotes (reverts the F44 fix)", File: "v2/pkg/engine/resolve/resolvable.go", Rule: "C02-R12", Key: "Resolvable.walkString/raw-string-content-printed",
 				Old: "\t\t\t\t// not JSON after all: render the string itself, properly escaped\n\t\t\t\tr.renderScalarFieldValue(value, s.Nullable)\n", New: "\t\t\t\tr.printBytes(quote)\n\t\t\t\tr.printBytes(content)\n\t\t\t\tr.printBytes(quote)\n"},
 			{Name: "inaccessible enum values looked up by binary search in an unsorted list (seeded change C02-22)", File: "v2/pkg/engine/resolve/node_enum.go", Rule: "C02-R11", Key: "Enum.isAccessibleValue/binary-search-over:InaccessibleValues",
@@ -997,7 +999,7 @@ func c02BinarySearchNeedsSortedWriter(r *fw.Run) {
 // MarshalTo, and renderScalarFieldBytes, which re-parses and fails loudly, are the sanctioned ways out).
 func c02StringContentNeverPrintedRaw(r *fw.Run) {
 	p := r.Prog
-	r.Rule("C02-R12", "no argument of Resolvable.printBytes derives from the unescaped content of a subgraph string ((*astjson.Value).GetStringBytes): string values leave the renderer only through escaping or re-parsing sinks")
+	r.Rule("C02-R12", "no argument of Resolvable.printBytes derives from the unescaped content of a subgraph string ((*astjson.Value).GetStringBytes) or from the key of a map of subgraph members (map[string]*astjson.Value): subgraph strings leave the renderer only through escaping or re-parsing sinks")
 	nSinks, nTainted := 0, 0
 	for _, fi := range p.Funcs("resolve") {
 		if fw.RecvName(recvTypeOrNil(fi.Obj)) != "Resolvable" {
@@ -1017,6 +1019,43 @@ func c02StringContentNeverPrintedRaw(r *fw.Run) {
 			sig, _ := fn.Type().(*types.Signature)
 			return sig != nil && sig.Recv() != nil && strings.HasSuffix(sig.Recv().Type().String(), "astjson.Value") && len(c.Args) == 0
 		}
+		// an encoding call between source and sink cleans the value (json.Marshal, strconv.AppendQuote, MarshalTo)
+		d.Barrier = func(e ast.Expr) bool {
+			enc, isCall := e.(*ast.CallExpr)
+			if !isCall {
+				return false
+			}
+			fn := fw.Callee(info, enc)
+			return fn != nil && (fn.Name() == "AppendQuote" || fn.Name() == "Marshal" || fn.Name() == "MarshalTo")
+		}
+		// second source: the key variable of a range over a map[string]*astjson.Value — such maps hold members copied from
+		// subgraph objects (forwarded extensions), their keys are subgraph-controlled, unescaped strings
+		subgraphKeys := map[types.Object]bool{}
+		fw.WalkAll(fi.Decl.Body, func(nd ast.Node) bool {
+			rs, ok := nd.(*ast.RangeStmt)
+			if !ok || rs.Key == nil {
+				return true
+			}
+			tv, okT := info.Types[rs.X]
+			if !okT {
+				return true
+			}
+			if m, isMap := tv.Type.Underlying().(*types.Map); isMap && strings.HasSuffix(m.Elem().String(), "astjson.Value") {
+				if id, isID := rs.Key.(*ast.Ident); isID {
+					if o := info.Defs[id]; o != nil {
+						subgraphKeys[o] = true
+					}
+				}
+			}
+			return true
+		})
+		isSource := func(e ast.Expr) bool {
+			if isContent(e) {
+				return true
+			}
+			id, ok := e.(*ast.Ident)
+			return ok && subgraphKeys[info.Uses[id]]
+		}
 		ord := 0
 		fw.WalkAll(fi.Decl.Body, func(nd ast.Node) bool {
 			c, ok := nd.(*ast.CallExpr)
@@ -1024,7 +1063,7 @@ func c02StringContentNeverPrintedRaw(r *fw.Run) {
 				return true
 			}
 			nSinks++
-			if d.Derives(c.Args[0], isContent) {
+			if d.Derives(c.Args[0], isSource) {
 				nTainted++
 				ord++
 				r.Fail("C02-R12", fi.Name()+"/raw-string-content-printed#"+itoa(ord), p.Pos(c.Pos()), "string content of a subgraph value is never printed raw",
